@@ -119,6 +119,8 @@ pub enum QKind {
     Lack,
     Nosuch,
     Cols3,
+    /// SELECT *: no column filter (Table::snapshot(None)), columns from the _meta_columns table
+    Star,
 }
 
 impl QKind {
@@ -130,6 +132,7 @@ impl QKind {
             "lack" => QKind::Lack,
             "nosuch" => QKind::Nosuch,
             "cols3" => QKind::Cols3,
+            "star" => QKind::Star,
             _ => return None,
         })
     }
@@ -141,6 +144,7 @@ impl QKind {
             QKind::Lack => "lack",
             QKind::Nosuch => "nosuch",
             QKind::Cols3 => "cols3",
+            QKind::Star => "star",
         }
     }
     pub fn sql(&self) -> String {
@@ -151,6 +155,7 @@ impl QKind {
             QKind::Lack => format!("SELECT id, x FROM {} LIMIT 1000000", TABLE),
             QKind::Nosuch => format!("SELECT id, nosuch FROM {} LIMIT 1000000", TABLE),
             QKind::Cols3 => format!("SELECT id, b, x FROM {} LIMIT 1000000", TABLE),
+            QKind::Star => format!("SELECT * FROM {} LIMIT 1000000", TABLE),
         }
     }
 }
@@ -327,9 +332,20 @@ pub fn run_query(rt: &tokio::runtime::Runtime, db: &LocustDB, kind: QKind, deadl
             } else {
                 let mut v = Vec::with_capacity(rows.len());
                 let mut nulls = 0usize;
+                // the id column: first for the queries that name their columns, by name for SELECT *
+                let idx = if kind == QKind::Star {
+                    let mut names = out.colnames.clone();
+                    names.sort();
+                    if names != ["b", "id", "x"] {
+                        return QRes::Malformed(format!("SELECT * returned the columns {:?}", out.colnames));
+                    }
+                    out.colnames.iter().position(|c| c == "id").unwrap()
+                } else {
+                    0
+                };
                 for r in &rows {
-                    match r.first() {
-                        Some(Value::Int(i)) => v.push((*i, r.get(1).cloned())),
+                    match r.get(idx) {
+                        Some(Value::Int(i)) => v.push((*i, r.get(if idx == 0 { 1 } else { 0 }).cloned())),
                         Some(Value::Null) => nulls += 1,
                         other => return QRes::Malformed(format!("id cell {:?}", other)),
                     }
